@@ -25,4 +25,4 @@ prop("C10", "other",
      bounded=[B.c10_pipeline])
 
 NOT_YET = {}
-FIX_COMMITS = ["240c9e2", "ba1006d"]
+FIX_COMMITS = ["240c9e2", "ba1006d", "dab453b", "5a0ad53"]
